@@ -5,3 +5,9 @@ import LopdfModel.Model.Basic
 import LopdfModel.Model.Obj
 import LopdfModel.Model.Pages
 import LopdfModel.Thm.C12
+import LopdfModel.Model.Text
+import LopdfModel.Spec.Utf16
+import LopdfModel.Lemmas.Utf16
+import LopdfModel.Lemmas.Text
+import LopdfModel.Spec.Charts
+import LopdfModel.Thm.C16
